@@ -189,7 +189,15 @@ func (s *LegacyServer) VerifyClient(ctx context.Context, r *Request[ClientCreden
 		if !ok {
 			return nil, oidc.ErrUnsupportedGrantType().WithDescription("client_credentials grant not supported")
 		}
-		return storage.ClientCredentials(ctx, r.Data.ClientID, r.Data.ClientSecret)
+		client, err := storage.ClientCredentials(ctx, r.Data.ClientID, r.Data.ClientSecret)
+		if err != nil {
+			return nil, err
+		}
+		// like the other grants below: client_secret_post clients are only served when the method is enabled
+		if client.AuthMethod() == oidc.AuthMethodPost && !s.provider.AuthMethodPostSupported() {
+			return nil, oidc.ErrInvalidClient().WithDescription("auth_method post not supported")
+		}
+		return client, nil
 	}
 
 	if r.Data.ClientAssertionType == oidc.ClientAssertionTypeJWTAssertion {
@@ -369,6 +377,16 @@ func (s *LegacyServer) authenticateResourceClient(ctx context.Context, cc *Clien
 	}
 	if err := s.provider.Storage().AuthorizeClientIDSecret(ctx, cc.ClientID, cc.ClientSecret); err != nil {
 		return "", oidc.ErrUnauthorizedClient().WithParent(err)
+	}
+	// like VerifyClient: client_secret_post clients are only served when the method is enabled
+	if !s.provider.AuthMethodPostSupported() {
+		client, err := s.provider.Storage().GetClientByClientID(ctx, cc.ClientID)
+		if err != nil {
+			return "", oidc.ErrUnauthorizedClient().WithParent(err)
+		}
+		if client.AuthMethod() == oidc.AuthMethodPost {
+			return "", oidc.ErrInvalidClient().WithDescription("auth_method post not supported")
+		}
 	}
 	return cc.ClientID, nil
 }
